@@ -17,6 +17,32 @@ use hsys::MapMode;
 use rng::Rng;
 use std::io::{BufRead, Write};
 
+/// watchdog for the suites that dispatch on real threads: a case that does not come back (a deadlocked dispatch cannot be
+/// interrupted) is reported as `<case>\thang` and ends the process; the callers flush their output before every case
+pub struct Watch(std::sync::Arc<std::sync::Mutex<Option<(String, std::time::Instant, u64)>>>);
+impl Watch {
+    pub fn new() -> Watch {
+        let cur: std::sync::Arc<std::sync::Mutex<Option<(String, std::time::Instant, u64)>>> = std::sync::Arc::new(std::sync::Mutex::new(None));
+        let c2 = cur.clone();
+        std::thread::spawn(move || loop {
+            std::thread::sleep(std::time::Duration::from_millis(500));
+            let g = c2.lock().unwrap();
+            if let Some((case, start, budget_ms)) = &*g {
+                if start.elapsed().as_millis() as u64 > *budget_ms {
+                    let mut o = std::io::stdout();
+                    let _ = writeln!(o, "{}\thang", case);
+                    let _ = o.flush();
+                    std::process::exit(0);
+                }
+            }
+        });
+        Watch(cur)
+    }
+    pub fn begin(&self, case: String, budget_ms: u64) { *self.0.lock().unwrap() = Some((case, std::time::Instant::now(), budget_ms)); }
+    pub fn end(&self) { *self.0.lock().unwrap() = None; }
+}
+const CASE_BUDGET_MS: u64 = 120_000;
+
 fn arg<'a>(args: &'a [String], key: &str) -> Option<&'a str> {
     args.iter().position(|a| a == key).and_then(|i| args.get(i + 1)).map(|s| s.as_str())
 }
@@ -155,8 +181,9 @@ fn plan_cmd(args: &[String]) {
 /// exec --gen random|faults --count N --seed S --shard i/n    |   exec --cases FILE
 fn exec_cmd(args: &[String]) {
     let mut env = exec::ExecEnv::new();
-    let stdout = std::io::stdout();
-    let mut out = std::io::BufWriter::new(stdout.lock());
+    // (stdout is not locked: the watchdog writes to it too)
+    let mut out = std::io::BufWriter::new(std::io::stdout());
+    let watch = Watch::new();
     if let Some(f) = arg(args, "--cases") {
         let rd: Box<dyn BufRead> = if f == "-" { Box::new(std::io::BufReader::new(std::io::stdin())) }
             else { Box::new(std::io::BufReader::new(std::fs::File::open(f).expect("cases file"))) };
@@ -165,7 +192,10 @@ fn exec_cmd(args: &[String]) {
             let case = line.split('\t').next().unwrap().trim();
             if case.is_empty() || case.starts_with('#') { continue; }
             let c = exec::ExecCase::parse(case);
+            out.flush().unwrap();
+            watch.begin(format!("{} :: {}", c.head(), prog::to_text(&c.regs)), CASE_BUDGET_MS);
             let obs = exec::observe(&c, &mut env);
+            watch.end();
             writeln!(out, "{} :: {}\t{}", c.head(), prog::to_text(&c.regs), obs).unwrap();
         }
         return;
@@ -206,7 +236,10 @@ fn exec_cmd(args: &[String]) {
         let next = if gen == "faults" { ['d', 'r', 'p', 's'][r.below(4) as usize] } else { 'd' };
         let nest = r.chance(1, 4);
         let c = exec::ExecCase { map, pool, mode, calls, faults, next, nest, regs };
+        out.flush().unwrap();
+        watch.begin(format!("{} :: {}", c.head(), prog::to_text(&c.regs)), CASE_BUDGET_MS);
         let obs = exec::observe(&c, &mut env);
+        watch.end();
         writeln!(out, "{} :: {}\t{}", c.head(), prog::to_text(&c.regs), obs).unwrap();
     }
 }
@@ -290,11 +323,15 @@ fn meta_cmd(args: &[String]) {
 /// parseq --gen random|conflicts|exh|wide --count N --seed S --shard i/n   |   parseq --cases FILE
 #[cfg(feature = "parallel")]
 fn parseq_cmd(args: &[String]) {
-    let stdout = std::io::stdout();
-    let mut out = std::io::BufWriter::new(stdout.lock());
+    let mut out = std::io::BufWriter::new(std::io::stdout());
+    let watch = Watch::new();
     let mut pools = std::collections::HashMap::new();
     let mut emit = |c: &parseq::Case, out: &mut dyn Write| {
-        writeln!(out, "{} :: {}\t{}", c.head(), parseq::tree_text(&c.tree), parseq::observe(c, &mut pools)).unwrap();
+        out.flush().unwrap();
+        watch.begin(format!("{} :: {}", c.head(), parseq::tree_text(&c.tree)), CASE_BUDGET_MS);
+        let obs = parseq::observe(c, &mut pools);
+        watch.end();
+        writeln!(out, "{} :: {}\t{}", c.head(), parseq::tree_text(&c.tree), obs).unwrap();
     };
     if let Some(f) = arg(args, "--cases") {
         let rd: Box<dyn BufRead> = Box::new(std::io::BufReader::new(std::fs::File::open(f).expect("cases file")));
@@ -346,11 +383,15 @@ fn parseq_cmd(args: &[String]) {
 /// async --gen random --count N --seed S --shard i/n   |   async --cases FILE
 #[cfg(feature = "parallel")]
 fn async_cmd(args: &[String]) {
-    let stdout = std::io::stdout();
-    let mut out = std::io::BufWriter::new(stdout.lock());
+    let mut out = std::io::BufWriter::new(std::io::stdout());
+    let watch = Watch::new();
     let mut pools = std::collections::HashMap::new();
     let mut emit = |c: &asynch::Case, out: &mut dyn Write| {
-        writeln!(out, "{} :: {}\t{}", c.head(), prog::to_text(&c.regs), asynch::observe(c, &mut pools)).unwrap();
+        out.flush().unwrap();
+        watch.begin(format!("{} :: {}", c.head(), prog::to_text(&c.regs)), CASE_BUDGET_MS);
+        let obs = asynch::observe(c, &mut pools);
+        watch.end();
+        writeln!(out, "{} :: {}\t{}", c.head(), prog::to_text(&c.regs), obs).unwrap();
     };
     if let Some(f) = arg(args, "--cases") {
         let rd: Box<dyn BufRead> = Box::new(std::io::BufReader::new(std::fs::File::open(f).expect("cases file")));
@@ -378,11 +419,33 @@ fn async_cmd(args: &[String]) {
 /// one line per configuration: "pool cfg=<user|default|batch|async> width=<w> threads=<p> reps=<k> limit=<ms>"
 #[cfg(feature = "parallel")]
 fn pool_cmd(args: &[String]) {
-    let stdout = std::io::stdout();
-    let mut out = std::io::BufWriter::new(stdout.lock());
+    // (not locked: the watchdog thread writes to it too)
+    let mut out = std::io::stdout();
+    // watchdog: a configuration that does not come back (a deadlocked dispatch cannot be interrupted) is reported as
+    // `hang` and ends the process; everything before it has been flushed
+    let current: std::sync::Arc<std::sync::Mutex<Option<(String, std::time::Instant, u64)>>> = std::sync::Arc::new(std::sync::Mutex::new(None));
+    {
+        let current = current.clone();
+        std::thread::spawn(move || loop {
+            std::thread::sleep(std::time::Duration::from_millis(500));
+            let g = current.lock().unwrap();
+            if let Some((case, start, budget_ms)) = &*g {
+                if start.elapsed().as_millis() as u64 > *budget_ms {
+                    println!("{} :: -\thang", case);
+                    let _ = std::io::stdout().flush();
+                    std::process::exit(0);
+                }
+            }
+        });
+    }
     let mut emit = |cfg: &str, width: u32, threads: usize, reps: u32, limit: u64, out: &mut dyn Write| {
+        let case = format!("pool cfg={} width={} threads={} reps={} limit={}", cfg, width, threads, reps, limit);
+        // the repetitions stop at the first timeout; in that one the heads may time out one after the other
+        *current.lock().unwrap() = Some((case.clone(), std::time::Instant::now(), limit * (width as u64 + 2) + 30_000));
         let obs = poolh::observe(cfg, width, threads, reps, limit);
-        writeln!(out, "pool cfg={} width={} threads={} reps={} limit={} :: -\t{}", cfg, width, threads, reps, limit, obs).unwrap();
+        *current.lock().unwrap() = None;
+        writeln!(out, "{} :: -\t{}", case, obs).unwrap();
+        out.flush().unwrap();
     };
     if let Some(f) = arg(args, "--cases") {
         let rd: Box<dyn BufRead> = Box::new(std::io::BufReader::new(std::fs::File::open(f).expect("cases file")));
@@ -403,7 +466,7 @@ fn pool_cmd(args: &[String]) {
     let mut k = 0u64;
     let widths: Vec<u32> = if gen == "small" { vec![2, 3, 5] } else { (2..=16).collect() };
     for w in widths {
-        for cfg in ["user", "default", "batch", "async", "foreign", "defbatch", "batchfirst", "asyncforeign"] {
+        for cfg in ["user", "default", "batch", "async", "foreign", "defbatch", "batchfirst", "asyncforeign", "asyncdouble"] {
             // pool exactly as wide as the stage, and a larger one; the default pool has one thread per CPU
             let sizes: Vec<usize> = if cfg == "default" { if (w as usize) <= cpus { vec![cpus] } else { vec![] } } else if cfg == "defbatch" { if (w as usize) < cpus { vec![cpus] } else { vec![] } } else { vec![w as usize, 16.max(w as usize)] };
             for p in sizes {
